@@ -143,6 +143,34 @@ def stats_case(inputs, output, sd, nested, res, tier):
             if base.write != exact["write"] + sum(in_sizes):
                 bad.append(("write", base.write,
                             exact["write"] + sum(in_sizes)))
+            # the smallest cap that truncates nothing: the largest bond that
+            # arises (found by replaying the same steps on the real
+            # hypergraph with merging but without a cap)
+            hg = tree.get_hypergraph(accel=False)
+            tmap = {frozenset([i]): i for i in range(n)}
+            chi_star = max(hg.size_dict.values())
+            def live_max():
+                return max([1] + [hg.size_dict[e] for e in hg.edges])
+
+            for p, l, r in steps:
+                li, ri = tmap[l], tmap[r]
+                if late:
+                    hg.compress(chi=HUGE, edges=hg.get_node(li))
+                    hg.compress(chi=HUGE, edges=hg.get_node(ri))
+                    chi_star = max(chi_star, live_max())
+                pi = tmap[p] = hg.contract(li, ri)
+                if not late:
+                    hg.compress(chi=HUGE, edges=hg.get_node(pi))
+                chi_star = max(chi_star, live_max())
+            for chi in (chi_star, chi_star + 1):
+                t = tree.compressed_contract_stats(
+                    chi=chi, order=oarg, compress_late=late)
+                res.evals += 1
+                for attr in ("flops", "max_size", "write", "peak_size"):
+                    if getattr(t, attr) != getattr(base, attr):
+                        bad.append(("cap-equal-to-largest-bond-changes-"
+                                    + attr, chi, getattr(t, attr),
+                                    getattr(base, attr)))
             for chi in CHIS:
                 t = tree.compressed_contract_stats(
                     chi=chi, order=oarg, compress_late=late)
